@@ -11,7 +11,7 @@ ID=$1; shift
 SRC=/tmp/seeded/$ID; [ -d "$SRC" ] || SRC=/verif/seeded/$ID
 [ -f "$SRC/patch.diff" ] || { echo "SEED $ID: no patch"; exit 2; }
 export GOFLAGS=-mod=mod GOPROXY=off GOSUMDB=off GOTOOLCHAIN=local
-WT=/tmp/sv-$ID
+WT=/tmp/sv-work   # one fixed path: the Go build cache then carries over between runs (sequential use only)
 git -C /repo worktree remove --force $WT 2>/dev/null; rm -rf $WT
 git -C /repo worktree add -q --detach $WT HEAD || exit 2
 trap 'git -C /repo worktree remove --force $WT 2>/dev/null; rm -rf $WT' EXIT
